@@ -11,6 +11,9 @@
 //! for a deterministic subset the in-process CLI over real files) must reject it; its diagnostic (top error +
 //! `source()` chain, i.e. exactly what cli/src/bin/okane.rs prints) is parsed and judged:
 //!
+//! A third family puts an `include` line (of an empty, blank, comment-only or valid file, literal or glob) into the
+//! bad file itself BEFORE the bad entry: files that were included and finished must not be named.
+//!
 //!  F  the diagnostic names the bad file (` --> path:l:c` / `failed to parse file path`), not the root, a sibling
 //!     or an intermediate file;
 //!  L  every line number it shows (gutter numbers and `l` of `-->`) is >= the first line of the bad entry, and
@@ -21,19 +24,19 @@
 use std::collections::BTreeMap;
 use std::path::PathBuf;
 
-use crate::fw::{CheckDef, Ctx, Outcome};
+use crate::fw::{CheckDef, Ctx, Outcome, Tier};
 use crate::oka;
 
 pub const DEF: CheckDef = CheckDef {
     id: "C14",
     run,
     technique: "bounded-exhaustive enumeration of (prefix context x fault x include location) with generator-computed first/last/fault line of the one invalid entry in original-file numbering; the rendered error chain of the real loader/parser/book-keeper (FakeFileSystem in-process, and the in-process CLI on real files for a fixed subset) is parsed (named path, `-->` line, gutter numbers, snippet text) and compared with the generator's numbers and with the original file's lines",
-    rule: "case = (context, fault, location, fs). Context = 8 slots with a default each (leading blank lines 0-3; blank lines between preceding content and the bad entry 1/0/2/3; LF/CRLF; preceding content none/comment block/transaction/two transactions/directives/mix; multi-byte marker none/2-/3-/4-byte UTF-8 in preceding payees, comments, account names and inside the bad entry before the fault; following content none/transaction/transaction+comment; blank lines after the bad entry 1/0/2; final newline present/absent): all contexts with <= 2 non-default slots (thorough: ALL contexts, i.e. the full product of the 8 slots). Fault = every entry of the fault table (syntactic: bad date, bad effective date, unknown directive, malformed number / unclosed parenthesis / duplicated lot price / dangling @ / dangling = / bad lot date / trailing garbage on posting k=1..3, unindented posting, bare include, bad sub-line of account/commodity, malformed apply tag / end; semantic: unbalanced, false assertion on posting j, two omitted postings, zero rate, zero total, same-commodity cost/lot, zero lot, zero amount with cost, expression errors, `= 0` on a multi-commodity account, account/commodity alias conflicts). Location = root, or literal/glob include at depth 1/2 below a root with a short or long preamble (and, for faults needing an earlier declaration, that declaration in the bad file or in the root). states = cases executed, transitions = line numbers + snippet lines compared",
+    rule: "case = (context, fault, location, fs). Context = 8 slots with a default each (leading blank lines 0-3; blank lines between preceding content and the bad entry 1/0/2/3; LF/CRLF; preceding content none/comment block/transaction/two transactions/directives/mix; multi-byte marker none/2-/3-/4-byte UTF-8 in preceding payees, comments, account names and inside the bad entry before the fault; following content none/transaction/transaction+comment; blank lines after the bad entry 1/0/2; final newline present/absent): all contexts with <= 2 non-default slots (thorough: ALL contexts, i.e. the full product of the 8 slots). Fault = every entry of the fault table (syntactic: bad date, bad effective date, unknown directive, malformed number / unclosed parenthesis / duplicated lot price / dangling @ / dangling = / bad lot date / trailing garbage on posting k=1..3, unindented posting, bare include, bad sub-line of account/commodity, malformed apply tag / end; semantic: unbalanced, false assertion on posting j, two omitted postings, zero rate, zero total, same-commodity cost/lot, zero lot, zero amount with cost, expression errors, `= 0` on a multi-commodity account, account/commodity alias conflicts). Location = root, or literal/glob include at depth 1/2 below a root with a short or long preamble (and, for faults needing an earlier declaration, that declaration in the bad file or in the root). Include-before-entry family: in the file of the bad entry (root or included) an `include` line precedes the entry, its target being an empty / newline-only / whitespace-only / comment-only / valid file or a glob matching blank files among valid ones (7 kinds) x all faults x contexts with <= 1 (thorough <= 2) non-default slots x root + 4 include shapes (thorough: all locations). states = cases executed, transitions = line numbers + snippet lines compared",
     assumptions: &[
         "the generator's own line arithmetic (positions in a Vec of lines) is the reference; every line of a generated file is textually distinct from its neighbours, so a snippet line identifies its line number",
         "for a syntax error the allowed range is [first line of the entry, fault line]; a number after the fault line but inside the entry (or the blank line / end of file directly after it) is DON'T-CARE because the statement does not pin where a parser may stop; a number before the entry or inside another entry is a violation",
         "column numbers, message wording and the choice of annotated sub-spans are not judged",
-        "real-file-system subset: all faults x all locations (plus a depth-2 include through `../`) x contexts with <= 1 (thorough <= 2) non-default slots, through `okane balance` (and `accounts`, `primitive flatten` for syntax faults) run in-process exactly like cli/src/bin/okane.rs",
+        "real-file-system subset: all faults x all locations (plus a depth-2 include through `../`) x contexts with <= 1 (thorough <= 2) non-default slots, through `okane balance` (and `register` / `accounts`, `primitive flatten`; in quick these only in the default context) run in-process exactly like cli/src/bin/okane.rs",
     ],
     shards: 64,
     hang_s: 20,
@@ -346,9 +349,37 @@ struct BadFile {
     last: usize,
     fault: usize,
     final_nl: bool,
+    /// files included from the bad file BEFORE the bad entry: (path relative to the bad file's directory, content)
+    extra: Vec<(String, String)>,
 }
 
-fn build_bad_file(s: &Slots, f: &Fault, setup_here: bool) -> BadFile {
+/// An `include` line placed in the bad file itself, before the bad entry (0 = none). The diagnostic must still name
+/// the bad file, not the file(s) that were included and finished before the entry.
+const NINCB: u8 = 8;
+fn incb_name(k: u8) -> &'static str {
+    ["none", "literal-empty-file", "literal-newlines-only-file", "literal-whitespace-only-file", "literal-comment-only-file", "literal-valid-file", "glob-valid+empty+blank+comment+valid", "glob-valid+empty-last"][k as usize]
+}
+/// (include target, files) of kind k; every kind has its own directory so that real-file runs never see stale files
+fn incb_files(k: u8) -> (String, Vec<(String, String)>) {
+    let d = format!("xinc{}", k);
+    let valid = |tag: &str| format!("2024/01/08 Included {tag}\n  Inc:{tag}A  4 X\n  Inc:{tag}B\n");
+    let f = |name: &str, c: String| (format!("{}/{}", d, name), c);
+    match k {
+        1 => (format!("{}/empty.ledger", d), vec![f("empty.ledger", String::new())]),
+        2 => (format!("{}/blank.ledger", d), vec![f("blank.ledger", "\n\n\n".into())]),
+        3 => (format!("{}/spaces.ledger", d), vec![f("spaces.ledger", "  \n\n \n".into())]),
+        4 => (format!("{}/comment.ledger", d), vec![f("comment.ledger", "; only a comment\n; and a second line\n".into())]),
+        5 => (format!("{}/valid.ledger", d), vec![f("valid.ledger", valid("v"))]),
+        6 => (
+            format!("{}/*.ledger", d),
+            vec![f("a-valid.ledger", valid("a")), f("b-empty.ledger", String::new()), f("c-blank.ledger", "\n\n".into()), f("d-comment.ledger", "; comment only\n".into()), f("e-valid.ledger", valid("e"))],
+        ),
+        7 => (format!("{}/*.ledger", d), vec![f("a-valid.ledger", valid("a")), f("z-empty.ledger", String::new())]),
+        _ => (String::new(), vec![]),
+    }
+}
+
+fn build_bad_file(s: &Slots, f: &Fault, setup_here: bool, incb: u8) -> BadFile {
     let m = marker(s[S_MB]);
     let mut lines: Vec<String> = vec![];
     for _ in 0..s[S_LEAD] {
@@ -358,13 +389,21 @@ fn build_bad_file(s: &Slots, f: &Fault, setup_here: bool) -> BadFile {
     let has_pre = !pre.is_empty();
     let has_setup = setup_here && !f.setup.is_empty();
     lines.extend(pre);
-    if has_pre && has_setup {
+    let (inc_target, extra) = incb_files(incb);
+    let has_inc = incb != 0;
+    if has_inc {
+        if has_pre {
+            lines.push(String::new());
+        }
+        lines.push(format!("include {}", inc_target));
+    }
+    if (has_pre || has_inc) && has_setup {
         lines.push(String::new());
     }
     if has_setup {
         lines.extend(f.setup.iter().cloned());
     }
-    if has_pre || has_setup {
+    if has_pre || has_setup || has_inc {
         for _ in 0..[1, 0, 2, 3][s[S_GAP] as usize] {
             lines.push(String::new());
         }
@@ -386,7 +425,7 @@ fn build_bad_file(s: &Slots, f: &Fault, setup_here: bool) -> BadFile {
     if final_nl {
         text.push_str(eol);
     }
-    BadFile { lines, text, first, last, fault, final_nl }
+    BadFile { lines, text, first, last, fault, final_nl, extra }
 }
 
 // ------------------------------------------------------------------------------------------
@@ -410,6 +449,8 @@ struct Loc {
     pre: u8,
     /// put the fault's setup entries into the root (before the include) instead of the bad file
     setup_in_root: bool,
+    /// include-before-entry kind inside the bad file (0 = none)
+    incb: u8,
 }
 
 impl Loc {
@@ -422,25 +463,30 @@ impl Loc {
             LocKind::Glob2 => "include-glob-depth2",
             LocKind::Lit2DotDot => "include-dotdot-depth2",
         };
-        if self.kind == LocKind::Root {
+        let base = if self.kind == LocKind::Root {
             k.to_string()
         } else {
             format!("{}/root-preamble-{}{}", k, if self.pre == 0 { "short" } else { "long" }, if self.setup_in_root { "/setup-in-root" } else { "" })
+        };
+        if self.incb == 0 {
+            base
+        } else {
+            format!("{}/after-an-include-of-{}-in-the-same-file", base, incb_name(self.incb))
         }
     }
 }
 
 fn locations(f: &Fault, real_fs: bool) -> Vec<Loc> {
-    let mut out = vec![Loc { kind: LocKind::Root, pre: 0, setup_in_root: false }];
+    let mut out = vec![Loc { kind: LocKind::Root, pre: 0, setup_in_root: false, incb: 0 }];
     let mut kinds = vec![LocKind::Lit1, LocKind::Glob1, LocKind::Lit2, LocKind::Glob2];
     if real_fs {
         kinds.push(LocKind::Lit2DotDot);
     }
     for kind in kinds {
         for pre in 0..2u8 {
-            out.push(Loc { kind, pre, setup_in_root: false });
+            out.push(Loc { kind, pre, setup_in_root: false, incb: 0 });
             if !f.setup.is_empty() {
-                out.push(Loc { kind, pre, setup_in_root: true });
+                out.push(Loc { kind, pre, setup_in_root: true, incb: 0 });
             }
         }
     }
@@ -470,11 +516,18 @@ struct Layout {
     bad_path: String,
 }
 
-fn build_layout(base: &str, loc: &Loc, f: &Fault, bad_text: &str) -> Layout {
+fn build_layout(base: &str, loc: &Loc, f: &Fault, bf: &BadFile) -> Layout {
+    let bad_text: &str = &bf.text;
+    let extras = |bad_path: &str| -> Vec<(String, String)> {
+        let dir = bad_path.rsplit_once('/').map(|x| x.0).unwrap_or("");
+        bf.extra.iter().map(|(rel, c)| (format!("{}/{}", dir, rel), c.clone())).collect()
+    };
     let p = |rel: &str| format!("{}/{}", base, rel);
     let root = p("main.ledger");
     if loc.kind == LocKind::Root {
-        return Layout { files: vec![(root.clone(), bad_text.to_string())], root: root.clone(), bad_path: root };
+        let mut files = vec![(root.clone(), bad_text.to_string())];
+        files.extend(extras(&root));
+        return Layout { files, root: root.clone(), bad_path: root };
     }
     let sib_a = "; sibling a\n2024/01/06 Sibling a\n  Sib:A  1 X\n  Sib:B\n".to_string();
     let sib_z = "; sibling z\n\n\n2024/01/07 Sibling z\n  Sib:Y  1 X\n  Sib:Z\n".to_string();
@@ -527,6 +580,7 @@ fn build_layout(base: &str, loc: &Loc, f: &Fault, bad_text: &str) -> Layout {
         LocKind::Root => unreachable!(),
     }
     files.push((bad_path.clone(), bad_text.to_string()));
+    files.extend(extras(&bad_path));
     Layout { files, root, bad_path }
 }
 
@@ -846,6 +900,9 @@ fn self_check() {
         for k in 0..DOMS[S_SUFFIX] {
             common.extend(suffix_lines(k, m));
         }
+        for k in 1..NINCB {
+            common.push(format!("include {}", incb_files(k).0));
+        }
         common.retain(|l| !l.is_empty());
         common.sort();
         common.dedup();
@@ -891,8 +948,8 @@ fn run(ctx: &mut Ctx) {
                     ctx.skip_cases(1);
                     continue;
                 }
-                let bf = build_bad_file(s, f, !loc.setup_in_root);
-                let lay = build_layout("/v", &loc, f, &bf.text);
+                let bf = build_bad_file(s, f, !loc.setup_in_root, loc.incb);
+                let lay = build_layout("/v", &loc, f, &bf);
                 let mut compared = 0u64;
                 ctx.case(
                     || describe(s, f, &loc, &lay, &bf, "fake-fs"),
@@ -918,15 +975,19 @@ fn run(ctx: &mut Ctx) {
     for s in &cli_ctxs {
         let fs = &by_mb[&s[S_MB]];
         for f in fs {
-            let cmds: Vec<Vec<&str>> = if f.kind == Kind::Syntax { vec![vec!["balance"], vec!["accounts"], vec!["primitive", "flatten"]] } else { vec![vec!["balance"], vec!["register"]] };
+            let mut cmds: Vec<Vec<&str>> = if f.kind == Kind::Syntax { vec![vec!["balance"], vec!["accounts"], vec!["primitive", "flatten"]] } else { vec![vec!["balance"], vec!["register"]] };
+            // quick: the other commands (same loader, other entry points) only in the default context
+            if ctx.tier == Tier::Quick && deviations(s) > 0 {
+                cmds.truncate(1);
+            }
             for loc in locations(f, true) {
                 for cmd in &cmds {
                     if !ctx.next_is_mine() {
                         ctx.skip_cases(1);
                         continue;
                     }
-                    let bf = build_bad_file(s, f, !loc.setup_in_root);
-                    let lay = build_layout(&format!("{}/{:?}", base, loc.kind), &loc, f, &bf.text);
+                    let bf = build_bad_file(s, f, !loc.setup_in_root, loc.incb);
+                    let lay = build_layout(&format!("{}/{:?}", base, loc.kind), &loc, f, &bf);
                     let via = format!("cli-{}", cmd.join("-"));
                     let mut compared = 0u64;
                     ctx.case(
@@ -944,6 +1005,79 @@ fn run(ctx: &mut Ctx) {
                     ctx.count("transitions", compared);
                     ctx.count("cases/real-file-system", 1);
                 }
+            }
+        }
+    }
+
+    // ---- family 3: the bad entry FOLLOWS an `include` line of its own file (root or included file) whose target is
+    // an empty / newline-only / whitespace-only / comment-only / valid file, or a glob matching blank files among
+    // valid ones: the diagnostic must name the file of the entry, not a file that was included and finished ----
+    let f3_ctxs = contexts(ctx.tier.pick(1usize, 2usize));
+    let f3_cli_ctxs = contexts(ctx.tier.pick(0usize, 1usize));
+    ctx.fact("include_before_entry_kinds", (NINCB - 1) as u64);
+    ctx.fact("include_before_entry_contexts", f3_ctxs.len() as u64);
+    let thorough = ctx.tier == Tier::Thorough;
+    let f3_locs = |f: &Fault, real_fs: bool| -> Vec<Loc> {
+        let mut out = vec![];
+        for l in locations(f, real_fs) {
+            // quick: root + the four include shapes with the short root preamble, earlier declarations in the bad file
+            if !thorough && (l.pre != 0 || l.setup_in_root || l.kind == LocKind::Lit2DotDot) {
+                continue;
+            }
+            for incb in 1..NINCB {
+                out.push(Loc { incb, ..l });
+            }
+        }
+        out
+    };
+    for s in &f3_ctxs {
+        let fs = &by_mb[&s[S_MB]];
+        for f in fs {
+            for loc in f3_locs(f, false) {
+                if !ctx.next_is_mine() {
+                    ctx.skip_cases(1);
+                    continue;
+                }
+                let bf = build_bad_file(s, f, !loc.setup_in_root, loc.incb);
+                let lay = build_layout("/v", &loc, f, &bf);
+                let mut compared = 0u64;
+                ctx.case(
+                    || describe(s, f, &loc, &lay, &bf, "fake-fs"),
+                    || {
+                        let obs = observe_fake(&lay);
+                        judge(&obs, &lay, &bf, f, &loc, "fake-fs", &mut compared)
+                    },
+                );
+                ctx.count("transitions", compared);
+                ctx.count(&format!("cases/include-before-entry/{}", incb_name(loc.incb)), 1);
+            }
+        }
+    }
+    for s in &f3_cli_ctxs {
+        let fs = &by_mb[&s[S_MB]];
+        for f in fs {
+            for loc in f3_locs(f, true) {
+                if !ctx.next_is_mine() {
+                    ctx.skip_cases(1);
+                    continue;
+                }
+                let cmd: &[&str] = &["balance"];
+                let bf = build_bad_file(s, f, !loc.setup_in_root, loc.incb);
+                let lay = build_layout(&format!("{}/{:?}", base, loc.kind), &loc, f, &bf);
+                let mut compared = 0u64;
+                ctx.case(
+                    || describe(s, f, &loc, &lay, &bf, &format!("real files, $ okane balance {}", lay.root)).replace(&base, "<scratch>"),
+                    || {
+                        let obs = observe_cli(&lay, &mut made, cmd);
+                        let mut o = judge(&obs, &lay, &bf, f, &loc, "cli-balance", &mut compared);
+                        if let crate::fw::Verdict::Violation { sig, detail } = &o.verdict {
+                            o = Outcome::violation(sig.clone(), detail.replace(&base, "<scratch>"));
+                        }
+                        o
+                    },
+                );
+                ctx.count("transitions", compared);
+                ctx.count("cases/real-file-system", 1);
             }
         }
     }
